@@ -190,7 +190,7 @@ fn sleep_check(t: u64, live: u64) {
             ));
         } else {
             ixmc::fail(format!(
-                "blocking_wait sleeps on an empty trigger although notify calls (thread, id) {missing:?} have already \
+                "sleeps with undelivered notify: blocking_wait sleeps on an empty trigger although notify calls (thread, id) {missing:?} have already \
                  returned Ok and their ids are undelivered ({live} notifier thread(s) still running)"
             ));
         }
